@@ -23,6 +23,7 @@ RULE = (
     '; pass 5: one prior object registered for several parameters (by closure and by name)'
     '; pass 6: constraint bounds loaded from a state dict saved with other bounds (Interval, GreaterThan, LessThan)'
     "; pass 8: assignments with the debug checks switched off; kernels built with the deprecated param_transform keyword"
+    "; pass 9: pyro_load_from_samples read-back for modules whose priors share a local name; constructor priors named after the raw parameter are resolved (were skipped)"
 )
 REQUIRED = ["transform_in_bounds", "transform_monotone", "inverse_roundtrip", "setter_roundtrip", "out_of_bounds_rejected", "invariant_after_mutation", "prior_log_prob", "prior_normalised", "prior_closure_sees_constrained", "sample_from_prior_readback"]
 ASSUMPTIONS = [
